@@ -48,7 +48,8 @@ pub fn random_cc14_event(rng: &mut Rng, channels: u8, few_values: bool) -> Ev {
             Ev::Msg(hi | c, rng.below(128) as u8, rng.below(128) as u8)
         }
         92..=96 => Ev::Msg(0xF0 + rng.below(16) as u8, rng.below(128) as u8, rng.below(128) as u8),
-        97..=98 => Ev::Reset,
+        97 => Ev::Reset,
+        98 => Ev::Tick(crate::scan::TIME_SHIFTS[rng.below(8) as usize]),
         _ => Ev::cc(c, rng.below(128) as u8, v),
     }
 }
@@ -139,6 +140,13 @@ fn check_message(c: u8, n: u8, v: u16, mon: &mut Cc14Mon, rng: &mut Rng, hist: &
         let h: &Vec<Ev> = hist;
         mon.apply(&e1, rep, &|| h.iter().map(|e| e.render()).collect())
     };
+    if v % 3 == 0 {
+        // "whatever it has been fed before" and whenever: time passes between the two halves
+        let step = Ev::Tick(crate::scan::TIME_SHIFTS[(v / 3) as usize % 8]);
+        hist.push(step);
+        mon.apply(&step, rep, &|| vec![]);
+        rep.count("messages_with_a_pause_between_msb_and_lsb", 1);
+    }
     hist.push(e2);
     let o2 = {
         let h: &Vec<Ev> = hist;
@@ -304,8 +312,8 @@ pub fn run_c07(cfg: &Cfg, rep: &mut Report) {
             }
         });
     }
-    // constructor panic condition
-    for n in 0u8..128 {
+    // constructor panic condition (not in the panic=abort build, where a panic ends the process)
+    for n in (0u8..128).filter(|_| !cfg!(panic = "abort")) {
         for (c, v) in [(0u8, 0u16), (15, 16383), (7, 8192)] {
             let r = api_probe("ControlChange14BitMessage::new", || {
                 ControlChange14BitMessage::new(ch(c), cn(n), u14(v))
